@@ -2,6 +2,12 @@ import PhysisModel.Base.Proto
 import PhysisModel.Spec.Excel
 import PhysisModel.Model.Exd
 import PhysisModel.Model.ExcelRootList
+import PhysisModel.Spec.Archive
+import PhysisModel.Spec.SqPackData
+import PhysisModel.Spec.Deflate
+import PhysisModel.Model.GameDataExcel
+import PhysisModel.Model.Inflate
+import PhysisModel.Driver.C01
 /-!
 Driver for C05.  Case grammar (single spaces, `-` = empty list):
 
@@ -16,6 +22,8 @@ Driver for C05.  Case grammar (single spaces, `-` = empty list):
 * `fname <name hex> <lang code> <start id>` — page file name, as hex
 * `names <version> <name hex>:<id>,…` — root list; input `exl <hex of encodeRootList>`; answer
   `<version> <name hex>:<id>,…` (what `get_all_sheet_names` / `read_excel_sheet_header` iterate over)
+* `sheets <platform 0..4> <dirs> <calls> <record>…` — sheets stored in a synthetic installation and
+  read through `GameData` (see the section "sheets in an archive" below for the record grammar)
 -/
 namespace Physis.Driver.C05
 open Physis Physis.Proto Physis.Spec.Excel
@@ -135,9 +143,334 @@ def showR (r : Exd.R (List (List Exd.ColumnData))) : String :=
   | .error .none => "none"
   | .error .panic => "panic"
 
+/-! ## sheets in an archive
+
+  sheets <platform 0..4> <dirs> <calls> <record> <record> …
+
+* dirs     comma-separated hex names of the directories below `sqpack` (listing order)
+* records  (space-separated token groups, in this order: at most one `R`, then sheets each followed by its pages)
+  * `R <store> <version> <name hex>:<id>,…`                       the root list `exd/root.exl`
+  * `S <name hex> <store> <sub> <ver> <dataOffset> <cols> <pages> <langs> <rowCount>`   a sheet and its header
+  * `P <page index> <lang code> <store> <rows>`                     a page file of the preceding sheet
+* store    `-` (the file is not stored) or `<chunk>.<kinds 1|2|3>.<dat id>.<gap>.<pattern>`: index
+           chunk, index kinds that list it (1 = `.index`, 2 = `.index2`, 3 = both), dat file id,
+           128-byte units of filler in front of the entry, and the block pattern `<n><r|s|f>_…`:
+           the content is cut into blocks of these sizes (cyclically) stored raw / as an RFC 1951
+           stored stream / as a fixed-Huffman literal stream
+* calls    comma-separated, all on one handle, in order:
+           `n` get_all_sheet_names · `h<name hex>` read_excel_sheet_header ·
+           `s<header name hex>.<page name hex>.<lang>.<page>[.<id>…]` read_excel_sheet_header, then
+           read_excel_sheet with that header under the (possibly differently spelled) page name,
+           then `read_row` per id · `e<path hex>` exists · `o<path hex>` find_offset
+
+Every file is encoded by the `Spec/` encoders (`encodeRootList` / `encodeExh` / `encodeExd`,
+`packStandard`, `encodeIndex`); category, repository directory and file names come from
+`Spec/Archive` (`resolve`, `indexName`, `datName`).  `input`: `sheets <platform> <dirs> <files> <calls>`
+with files as in C01.  Answers joined by `;`: `N<name hex>,…` | `H<header fields>` |
+`S<row answer>+…` | `T` | `F` | `o<n>` | `onone` | `none` | `hdr-none` | `page-none` | `panic`.
+-/
+section archive
+open Physis.Spec.Archive Physis.Spec.SqPackData
+
+structure Store where
+  chunk : Nat
+  kinds : Nat
+  dat : Nat
+  gap : Nat
+  pattern : List (Nat × Char)
+
+def parseStore (s : String) : Option (Option Store) :=
+  if s == "-" then some none else
+  match s.splitOn "." with
+  | [ch, k, d, g, pat] => do
+    let pattern ← (pat.splitOn "_").mapM (fun t => do
+      let m := t.back
+      let n ← (t.dropEnd 1).toString.toNat?
+      if n == 0 || !(m == 'r' || m == 's' || m == 'f') then none else some (n, m))
+    let k ← k.toNat?
+    if k < 1 || k > 3 || pattern.isEmpty then none else
+    some (some { chunk := ← ch.toNat?, kinds := k, dat := ← d.toNat?, gap := ← g.toNat?, pattern })
+  | _ => none
+
+inductive Content
+  | root (v : Int) (es : List (Bytes × Int))
+  | header (s : Schema)
+  | page (s : Schema) (rows : List Row)
+
+def Content.bytes : Content → Bytes
+  | .root v es => encodeRootList v es
+  | .header s => encodeExh s
+  | .page s rows => encodeExd s rows
+
+def Content.wf : Content → Bool
+  | .root v es => decide (WFrootList v es)
+  | .header s => decide (WFschema s)
+  | .page s rows => decide (WFschema s) && decide (WFrows s rows)
+
+structure StoredFile where
+  path : Bytes
+  content : Content
+  store : Store
+
+/-- "exd/root.exl" -/
+def rootPath : Bytes := "exd/root.exl".toUTF8.toList
+
+/-- the `R` / `S` / `P` records; `cur` = the sheet the following `P` records belong to -/
+def parseRecords : List String → Option (Bytes × Schema) → Option (List StoredFile)
+  | [], _ => some []
+  | "R" :: st :: ver :: ents :: rest, cur => do
+    let st ← parseStore st
+    let v ← ver.toInt?
+    let es ← (splitList ents ",").mapM (fun e => do
+      let (n, i) ← pair e ":"
+      some ((← Bytes.ofHexFast n), (← i.toInt?)))
+    let more ← parseRecords rest cur
+    some (match st with | some st => ⟨rootPath, .root v es, st⟩ :: more | none => more)
+  | "S" :: name :: st :: sub :: ver :: dof :: cols :: pages :: langs :: rc :: rest, _ => do
+    let name ← Bytes.ofHexFast name
+    let st ← parseStore st
+    let s ← parseSchema sub ver dof cols pages langs rc
+    let more ← parseRecords rest (some (name, s))
+    some (match st with | some st => ⟨headerPath name, .header s, st⟩ :: more | none => more)
+  | "P" :: k :: lang :: st :: rows :: rest, cur => do
+    let (name, s) ← cur
+    let k ← k.toNat?
+    let l ← lang.toNat?.bind langOfCode
+    let st ← parseStore st
+    let rows ← (splitList rows ";").mapM parseRow
+    let pg ← s.pages[k]?
+    let more ← parseRecords rest cur
+    some (match st with
+      | some st => ⟨Str.lower (pagePath name l pg), .page s rows, st⟩ :: more
+      | none => more)
+  | _, _ => none
+
+/-! ### a fixed-Huffman, literals-only DEFLATE stream (RFC 1951 §3.2.6) -/
+
+/-- `n` bits of `v`, most significant first (Huffman codes are packed MSB first) -/
+def msbBits (n v : Nat) : List Bool := (List.range n).map (fun i => v.testBit (n - 1 - i))
+
+def litCode (b : UInt8) : List Bool :=
+  if b.toNat < 144 then msbBits 8 (0x30 + b.toNat) else msbBits 9 (0x190 + (b.toNat - 144))
+
+/-- bits to bytes, least significant bit first (fuel: one unit per byte suffices) -/
+def packBitsAux : Nat → List Bool → Bytes
+  | 0, _ => []
+  | fuel + 1, bs =>
+    if bs.isEmpty then [] else
+    let byte := (bs.take 8).zipIdx.foldl (fun acc (b, i) => if b then acc + 2 ^ i else acc) 0
+    UInt8.ofNat byte :: packBitsAux fuel (bs.drop 8)
+
+def packBits (bs : List Bool) : Bytes := packBitsAux bs.length bs
+
+/-- BFINAL = 1, BTYPE = 01, one literal code per byte, end-of-block (7 zero bits) -/
+def fixedLiteralStream (d : Bytes) : Bytes :=
+  packBits ([true, true, false] ++ d.flatMap litCode ++ List.replicate 7 false)
+
+def mkBlock (data : Bytes) : Char → Block
+  | 's' => { data, compressed := some (Spec.Deflate.storedBlock data) }
+  | 'f' => { data, compressed := some (fixedLiteralStream data) }
+  | _ => { data, compressed := none }
+
+/-- cut `content` into blocks with the sizes / modes of `pat`, cyclically -/
+def cutBlocks (pat : List (Nat × Char)) : Nat → Nat → Bytes → List Block
+  | 0, _, _ => []
+  | fuel + 1, i, content =>
+    if content.isEmpty then [] else
+    match pat[i % pat.length]? with
+    | none => []
+    | some (n, m) => mkBlock (content.take n) m :: cutBlocks pat fuel (i + 1) (content.drop n)
+
+structure Placed where
+  files : List ((Nat × Nat × Nat × Nat) × Bytes)        -- (exp, cat id, chunk, dat id) ↦ dat file
+  slots : List ((Nat × Nat × Nat × Nat) × List Entry)   -- (exp, cat id, chunk, kind 1|2) ↦ entries
+  table : List ((Nat × Nat × Nat × Nat × Nat) × Content) -- (exp, cat id, chunk, dat id, offset) ↦ what sits there
+
+def updList {κ α} [BEq κ] (l : List (κ × α)) (k : κ) (dflt : α) (f : α → α) : List (κ × α) :=
+  if l.any (fun x => x.1 == k) then l.map (fun x => if x.1 == k then (x.1, f x.2) else x)
+  else l ++ [(k, f dflt)]
+
+def filler (n seed : Nat) : Bytes := (List.range n).map (fun i => ((i * 13 + seed) % 251 + 1).toUInt8)
+
+/-- place one file: repository and category as `Spec.Archive.resolve` says for its path -/
+def place (dirs : List Bytes) (pl : Placed) (f : StoredFile) : Option Placed := do
+  let a0 : Archive := { platform := .win32, dirs, slot := fun _ _ _ _ => .absent }
+  let (exp, cat) ← resolve a0 f.path
+  if !f.content.wf then none
+  let bs := cutBlocks f.store.pattern (f.content.bytes.length + 1) 0 f.content.bytes
+  if !standardWf bs || contents bs != f.content.bytes then none
+  let dk := (exp, cat.id, f.store.chunk, f.store.dat)
+  let cur := ((pl.files.lookup dk).getD []).length
+  let off := cur + 128 * f.store.gap
+  let files := updList pl.files dk [] (fun d => d ++ filler (128 * f.store.gap) cur ++ packStandard bs)
+  let addTo (slots : List ((Nat × Nat × Nat × Nat) × List Entry)) (kn : Nat) (k : Kind) :=
+    match hashOf k f.path with
+    | some h => updList slots (exp, cat.id, f.store.chunk, kn) [] (fun es =>
+        es ++ [{ hash := h, synonym := false, datId := f.store.dat.toUInt8, offset := off.toUInt64 }])
+    | none => slots
+  let slots := if f.store.kinds == 1 || f.store.kinds == 3 then addTo pl.slots 1 .index1 else pl.slots
+  let slots := if f.store.kinds == 2 || f.store.kinds == 3 then addTo slots 2 .index2 else slots
+  some { files, slots, table := pl.table ++ [((exp, cat.id, f.store.chunk, f.store.dat, off), f.content)] }
+
+inductive ACall
+  | names
+  | header (name : Bytes)
+  | sheet (hname pname : Bytes) (lang : Lang) (page : Nat) (ids : List UInt32)
+  | query (q : GameData.Query)
+
+def parseCall (s : String) : Option ACall := do
+  if s == "n" then some .names
+  else if s.startsWith "h" then some (.header (← Bytes.ofHexFast (s.drop 1).toString))
+  else if s.startsWith "s" then
+    match (s.drop 1).toString.splitOn "." with
+    | hn :: pn :: lang :: page :: ids =>
+      some (.sheet (← Bytes.ofHexFast hn) (← Bytes.ofHexFast pn) (← lang.toNat?.bind langOfCode) (← page.toNat?)
+        ((← ids.mapM (fun i => natLt i (2 ^ 32))).map UInt32.ofNat))
+    | _ => none
+  else if s.startsWith "e" then some (.query (.exists (← Bytes.ofHexFast (s.drop 1).toString)))
+  else if s.startsWith "o" then some (.query (.findOffset (← Bytes.ofHexFast (s.drop 1).toString)))
+  else none
+
+/-- what the installation stores under a game path (specification: `locate`, then the table of
+what was packed where) -/
+def storedAt (a : Archive) (table : List ((Nat × Nat × Nat × Nat × Nat) × Content)) (p : Bytes) : Option Content :=
+  match locate a p with
+  | none => none
+  | some l => table.lookup (l.exp, l.cat.id, l.chunk, l.datId.toNat, l.offset.toNat)
+
+def rootOf (a : Archive) (table : List ((Nat × Nat × Nat × Nat × Nat) × Content)) : Option (List (Bytes × Int)) :=
+  match storedAt a table rootPath with
+  | some (.root _ es) => some es
+  | _ => none
+
+def headerOf (a : Archive) (table : List ((Nat × Nat × Nat × Nat × Nat) × Content)) (name : Bytes) : Option Schema :=
+  match rootOf a table with
+  | none => none
+  | some es =>
+    if es.any (fun e => e.1 == name) then
+      match storedAt a table (headerPath name) with
+      | some (.header s) => some s
+      | _ => none
+    else none
+
+/-- the specification's answer to a call; the `Bool` says whether a known-finding row was read;
+`none` = the case is outside the grammar (a page decoded with a foreign header) -/
+def specCall (a : Archive) (table : List ((Nat × Nat × Nat × Nat × Nat) × Content)) : ACall → Option (String × Bool)
+  | .names =>
+    some (match rootOf a table with
+      | some es => "N" ++ (if es.isEmpty then "-" else ",".intercalate (es.map (fun e => Bytes.toHex e.1)))
+      | none => "none", false)
+  | .header name =>
+    some (match headerOf a table name with
+      | some s => "H" ++ showExhSpec s
+      | none => "none", false)
+  | .sheet hname pname lang k ids =>
+    match headerOf a table hname with
+    | none => some ("hdr-none", false)
+    | some s =>
+      match s.pages[k]? with
+      | none => none
+      | some pg =>
+        match storedAt a table (pagePath pname lang pg) with
+        | some (.page s' rows) =>
+          if encodeExh s' != encodeExh s then none else
+          let hits := ids.map (fun q => rows.find? (fun r => r.id == q))
+          some ("S" ++ "+".intercalate (hits.map (fun h => match h with
+              | some r => showSubs showCell r.subs
+              | none => "none")),
+            hits.any (fun h => match h with | some r => singleSubrow s r | none => false))
+        | some _ => none
+        | none => some ("page-none", false)
+  | .query (.exists p) => some (if (locate a p).isSome then "T" else "F", false)
+  | .query (.findOffset p) =>
+    some (match locate a p with | some l => "o" ++ toString l.offset.toNat | none => "onone", false)
+  | .query _ => none
+
+def showOO {α} (f : α → String) : Option (Option α) → String
+  | none => "panic"
+  | some none => "none"
+  | some (some x) => f x
+
+/-- the model's answers: all calls on one handle -/
+def modelCalls (disk : GameData.Disk) : GameData.GameData → List ACall → List String
+  | _, [] => []
+  | g, c :: cs =>
+    let inflate : Dat.Inflate := fun c n => Physis.Inflate.inflatesTo c n
+    match c with
+    | .names =>
+      let (r, g) := GameData.getAllSheetNames inflate disk g
+      showOO (fun ns => "N" ++ (if ns.isEmpty then "-" else ",".intercalate (ns.map Bytes.toHex))) r :: modelCalls disk g cs
+    | .header name =>
+      let (r, g) := GameData.readExcelSheetHeader inflate disk g name
+      showOO (fun h => "H" ++ showExhModel h) r :: modelCalls disk g cs
+    | .sheet hname pname lang k ids =>
+      let (r, g) := GameData.readExcelSheetHeader inflate disk g hname
+      match r with
+      | none => "panic" :: modelCalls disk g cs
+      | some none => "hdr-none" :: modelCalls disk g cs
+      | some (some exh) =>
+        match Exh.Language.ofCode lang.code with
+        | none => "bad-lang" :: modelCalls disk g cs
+        | some ml =>
+          let (r, g) := GameData.readExcelSheet inflate disk g pname exh ml k
+          (match r with
+            | none => "panic"
+            | some none => "page-none"
+            | some (some exd) => "S" ++ "+".intercalate (ids.map (fun q => showR (Exd.readRow exd exh q))))
+            :: modelCalls disk g cs
+    | .query q =>
+      let (ans, g) := GameData.step disk g q
+      C01.showAnswer disk ans :: modelCalls disk g cs
+
+def handleSheets (pl dirs calls : String) (records : List String) : Option String := do
+  let plat ← C01.platOf (← pl.toNat?)
+  let dirsB ← (splitList dirs ",").mapM Bytes.ofHexFast
+  let callsP ← (splitList calls ",").mapM parseCall
+  let stored ← parseRecords records none
+  let placed ← stored.foldlM (place dirsB) { files := [], slots := [], table := [] }
+  let slotSpecs ← placed.slots.mapM (fun ((e, c, ch, kn), es) => do
+    let cat ← C01.catOfId c
+    let k ← C01.kindOf kn
+    let f : IndexFile := { platform := plat, kind := k, entries := es,
+                           dataSeg := List.replicate 256 0xFF, folderSeg := List.replicate 16 0x11 }
+    if !f.wf then none else
+    some ({ exp := e, cat, chunk := ch, kind := k, slot := .file f } : C01.SlotSpec))
+  -- files of a directory that does not exist cannot exist
+  if slotSpecs.any (fun s => !dirsB.contains (repoDir s.exp)) then none
+  let a := C01.archiveOf plat dirsB slotSpecs
+  let datFiles ← placed.files.mapM (fun ((e, c, ch, d), b) => do
+    let cat ← C01.catOfId c
+    some ((repoDir e, datName plat e cat ch d), b))
+  let files : C01.Files :=
+    slotSpecs.filterMap (fun s => (s.slot.bytes).map (fun b => ((repoDir s.exp, indexName plat s.exp s.cat s.chunk s.kind), b)))
+      ++ datFiles
+  let spec ← callsP.mapM (specCall a placed.table)
+  let disk : GameData.Disk := fun d n => files.lookup (d, n)
+  let model := match GameData.fromExisting (C01.modelPlat plat) dirsB with
+    | none => callsP.map (fun _ => "panic")
+    | some g => modelCalls disk g callsP
+  let implCalls := ",".intercalate (callsP.map (fun c => match c with
+    | .names => "n"
+    | .header n => "h" ++ Bytes.toHex n
+    | .sheet hn pn l k ids => "s" ++ ".".intercalate ([Bytes.toHex hn, Bytes.toHex pn, toString l.code.toNat, toString k] ++ ids.map (fun i => toString i.toNat))
+    | .query (.exists p) => "e" ++ Bytes.toHex p
+    | .query (.findOffset p) => "o" ++ Bytes.toHex p
+    | .query (.extract p) => "x" ++ Bytes.toHex p))
+  let input := " ".intercalate ["sheets", toString plat.id.toNat, dirs, C01.showFiles files, implCalls]
+  let triv := spec.all (fun x => x.1 == "none" || x.1 == "hdr-none" || x.1 == "page-none" || x.1 == "F" || x.1 == "onone")
+  let tags := (if triv then ["triv"] else []) ++ (if spec.any (·.2) then ["kf:exd.single-subrow"] else [])
+  if callsP.isEmpty then none else
+  some (answer input (";".intercalate (spec.map (·.1))) tags (some (";".intercalate model)))
+
+end archive
+
 /-- one case line in, one answer line out (see `Base/Proto.lean`) -/
 def handle (line : String) : String :=
   match fields line with
+  | "sheets" :: pl :: dirs :: calls :: records =>
+    match handleSheets pl dirs calls records with
+    | some r => r
+    | none => bad
   | ["row", sub, ver, dof, cols, pages, langs, rc, rows, q] =>
     match parseSchema sub ver dof cols pages langs rc, (splitList rows ";").mapM parseRow, natLt q (2 ^ 32) with
     | some s, some rs, some qn =>
